@@ -904,6 +904,12 @@ class Collector:
         for buffer_ in self.metrics.get_hardware().get_components(einsum, BufferComponent):
             active_bindings[buffer_.get_name()] = []
             for binding in buffer_.get_bindings()[einsum]:
+                # Only the format used by this loop nest is traced (see
+                # Metrics.get_collected_tensor_info)
+                if self.metrics.get_loop_formats().get(
+                        binding["tensor"]) != binding["format"]:
+                    continue
+
                 format_ = self.metrics.get_format().get_spec(
                     binding["tensor"])[binding["format"]]
                 rank = binding["rank"]
